@@ -162,10 +162,10 @@ pub fn run(cfg: &Cfg) -> i32 {
         cfg,
         "exploration",
         "case = (program, history, slicing schedule): every cont() of the history is replaced by continue_async calls whose pause positions are set exactly by the virtual-clock hook (pause after b interpreter steps). Schedules: EVERY single pause position of every line (exhaustive for lines up to the step cap), pause-after-every-step, and random multi-pause schedules. Each completed line (text, tags, choices, can_continue, errors, observer and external-function callbacks) and the final globals/visit counts must equal the blocking control; while a line is unfinished current text/tags must be refused and so must a random sample of the guarded calls. Non-trivial = schedules with at least one pause; distinct by (program, history, schedule).",
-        cfg.pick(1500, 40000),
+        cfg.pick(1500, 200000),
     );
     rep.assumptions.push("the virtual clock hook replaces the wall-clock test inside continue_internal's loop at the same place; pause positions between steps are therefore exactly those the wall clock could produce".into());
-    let nprog = cfg.get_u64("programs", cfg.pick(40, 1500));
+    let nprog = cfg.get_u64("programs", cfg.pick(40, 8000));
     let step_cap = cfg.pick(60, 200) as u64;
     let mut gc = GenCfg::rich();
     gc.externals = true;
